@@ -89,7 +89,7 @@ type c17Case struct {
 }
 
 const c17Rule = "case = 1..8 settings from the 45-entry table (yaml key, flag name, VFLOW_* variable, kind, default; transcribed from docs/config.md and NewOptions), each given by a random non-empty subset of " +
-	"{environment, configuration file (-config <file>), command line} with distinct valid values (ports/sizes/worker counts in range, booleans, strings incl. ones needing YAML quoting), optionally -sflow-type-filter a,b,c; " +
+	"{environment, configuration file (-config <file>), command line} with distinct valid values (ports/sizes/worker counts in range, booleans, strings incl. ones needing YAML quoting; a source may also pin the built-in default value), optionally -sflow-type-filter a,b,c; " +
 	"executed by the real option loading (environment, YAML file, flags) in the package-main driver; oracle = effective value is the command line's, else the file's, else the environment's, else the default; untouched settings keep their defaults; " +
 	"the filter option parses to [a,b,c]; non-trivial = some setting has >= 2 sources; distinct by hash"
 
@@ -105,12 +105,19 @@ func genC17(t *rapid.T) c17Case {
 		s := c17Table[idx]
 		k := c17Key{Idx: idx, Key: s.Key}
 		mask := rapid.SampledFrom([]int{7, 6, 5, 3, 4, 2, 1, 7, 6}).Draw(t, "sources")
-		used := map[string]bool{fmt.Sprint(s.Def): true}
+		used := map[string]bool{}
 		for bit, src := range []string{"env", "file", "cli"} {
 			if mask&(1<<uint(bit)) == 0 {
 				continue
 			}
 			var v string
+			// a source may also pin a setting to its built-in default value (a higher-ranking source giving the
+			// default must still beat a lower-ranking one giving something else)
+			if def := fmt.Sprint(s.Def); def != "" && !used[def] && rapid.IntRange(0, 3).Draw(t, "pindefault") == 0 {
+				used[def] = true
+				k.Sources = append(k.Sources, c17Source{Src: src, Val: def})
+				continue
+			}
 			for try := 0; try < 20; try++ {
 				switch s.Kind {
 				case "int":
